@@ -14,9 +14,11 @@ sub-message, so this naming is a renaming of Thespian addresses (the harness che
 `receiveMessage` (including Thespian's rule for escaping exceptions: retry once, then
 PoisonMessage to the sender) or one environment action.  Channels are FIFO per ordered pair.
 
-`Config.patched = false` mirrors the current `Dispatcher.receiveMsg_ActorSystemConventionUpdate`
-(`self.start_sender(...)`, a TypeError); `true` mirrors the proposed one-line repair
-(`self.send(self.start_sender, ...)`).  The harness probes the real class to choose the flag.
+`Config.patched = true` is the CURRENT `Dispatcher.receiveMsg_ActorSystemConventionUpdate`
+(`self.send(self.start_sender, BenchmarkFailure(...))`, repo commit 617c60f).  `false` is the pinned
+code before that fix (`self.start_sender(...)`, a TypeError → PoisonMessage to the actor system), kept
+for the historical witness and so that a revert stays expressible.  The harness probes the real class
+to choose the flag.
 
 Left out (not part of the property): ResetRelativeTime, MechanicActor wake-ups, death of
 `mech`/`disp`, second StartEngine to the same actors.
@@ -265,6 +267,7 @@ def recvDisp (cfg : Config) (st : DSt) (msg : Msg) (sender : Aid) : Res DSt :=
         ⟨{ startSender := some sender, work := some (pending, remotes), registered := true },
           effs ++ [Eff.notify true], false⟩
   | .conv false ip =>
+    -- current code (617c60f): self.send(self.start_sender, BenchmarkFailure(...)); before: self.start_sender(...) raised
     if cfg.patched then
       match st.startSender with
       | none => ⟨st, [], true⟩
